@@ -176,9 +176,12 @@ def build_cases(seed, n, want, nphases=4):
                 cases.append({"tid": f"shape-{name}-all{k}", "project": proj, "phases": ph, "want": want, "seed": seed + k})
     for i in range(n):
         g = Gen(seed * 100003 + i)
-        proj = g.project()
-        # C01/C04 need successful final builds to say anything: ample resources, no failing steps
+        # C01/C04 need successful final builds to say anything: ample resources, no failing steps,
+        # no step that overwrites its own inputs
         g.features["fail"] = 0.0
+        g.features["clobber"] = 0.0
+        g.features["late_subplan"] = 0.0  # F8: outcome of such plans depends on the schedule
+        proj = g.project()
         hist = g.history(proj, nphases=nphases, watch_p=0.0,
                          cfgs=[{"njob": 1, "resources": "gpu:2,tpu:2"}, {"njob": 2, "resources": "gpu:2,tpu:2"},
                                {"njob": 3, "resources": "gpu:4,tpu:2", "keep_going": True}])
